@@ -102,6 +102,10 @@ func streamKeys(c *ctx) {
 		wx[len(wx)-1] ^= 1
 		wrong[iana.EC2KeyParameterX] = wx
 		variants["private+wrong-x"] = wrong
+		negY := cloneKey(withXY)
+		ny := new(big.Int).Sub(a.curve.Params().P, new(big.Int).SetBytes(yFull))
+		negY[iana.EC2KeyParameterY] = ny.FillBytes(make([]byte, a.size))
+		variants["private+wrong-negated-y"] = negY // the other point with this abscissa: on the curve, not d*G
 		wrongBS := cloneKey(withXY)
 		wrongBS[iana.EC2KeyParameterX], wrongBS[iana.EC2KeyParameterY] = key.ByteStr(wx), key.ByteStr(yFull)
 		variants["private+wrong-x-as-ByteStr"] = wrongBS
@@ -471,6 +475,41 @@ func streamKeys(c *ctx) {
 			}
 			if strings.Join(got, ",") != strings.Join(want, ",") {
 				fail("key-public", "the key set built from verifiers does not hold exactly their public keys (key ids: "+kidMode+")", fmt.Sprintf("%d verifiers, kid mode %s", len(vs), kidMode), strings.Join(got, ","), strings.Join(want, ","))
+			}
+		}
+		// ---- the public key derived from an ECDH private key that carries the optional alg and key_ops: alg is kept, the
+		// operations become an empty list, on every curve alike
+		for _, crv := range []int{1, 2, 3, 4} {
+			dk, err := ecdh.GenerateKey(crv)
+			if err != nil {
+				continue
+			}
+			for _, withOps := range []bool{false, true} {
+				kk := cloneKey(dk)
+				av := pick(c.r, []int{iana.AlgorithmECDH_ES_HKDF_256, iana.AlgorithmECDH_SS_HKDF_512, iana.AlgorithmECDH_ES_A128KW})
+				kk[iana.KeyParameterAlg] = av
+				if withOps {
+					kk[iana.KeyParameterKeyOps] = key.Ops{iana.KeyOperationDeriveKey}
+				}
+				if ecdh.CheckKey(kk) != nil {
+					continue
+				}
+				pk, err := ecdh.ToPublicKey(kk)
+				c.eval()
+				c.nontriv(fmt.Sprintf("ecdh-derived-members|%d|%v", crv, withOps))
+				if err != nil {
+					fail("key-public", "ecdh.ToPublicKey failed on a valid private key carrying alg / key_ops", describe(kk), err, "a public key")
+					continue
+				}
+				if ga, _ := pk.GetInt(iana.KeyParameterAlg); ga != av {
+					fail("key-public", "the public key derived from an ECDH private key does not carry its alg", describe(kk), describe(pk), fmt.Sprintf("alg %d", av))
+				}
+				if withOps != pk.Has(iana.KeyParameterKeyOps) || len(pk.Ops()) != 0 {
+					fail("key-public", "the public key derived from an ECDH private key does not carry an empty key_ops exactly when the private key has one", describe(kk), describe(pk), "key_ops [] iff present")
+				}
+				if ecdh.CheckKey(pk) != nil {
+					fail("key-public", "the public key derived from an ECDH private key does not pass CheckKey", describe(kk), describe(pk), "valid")
+				}
 			}
 		}
 		// ---- an ECDH private key that carries public coordinates (RFC 9053 recommends it): its own, in each form, or
